@@ -1,10 +1,15 @@
 ----------------------------- MODULE Fsim_Trace -----------------------------
-(* Trace validation for C17: what the receiving fsim module of a real TO2 run was told (length,        *)
-(* digest), what it was given (data chunks, compared with the source at their position by the harness   *)
-(* wrapper) and what the run left behind (destination, reported failure, TO2 result) must be a           *)
-(* behaviour of Fsim.tla: the `end` event must be the outcome of Finalize (or Stall) in the state the     *)
-(* recorded announcements and chunks lead to.  A run whose MTU is below what the fixed announcements of  *)
-(* the module need (`floor`) may fail or succeed; only the safety invariants are judged for it.          *)
+(* Trace validation for C17.  A run is one real TO2 SESSION: transfers one after the other through one    *)
+(* instance of the device module.  For every transfer: what the receiving fsim module was told (length,   *)
+(* digest, for wget the Content-Length of the HTTP response), what it was given (data chunks / pieces of  *)
+(* the HTTP body, compared with the source at their position by the harness) and what the transfer left   *)
+(* behind when the next one began or the session was over (the file under its name at the destination,    *)
+(* reported failure, temp files) must be a behaviour of Fsim.tla: the `xend` event must be the outcome of  *)
+(* Finalize (or Stall) in the state the recorded announcements and chunks of THIS transfer lead to — the   *)
+(* module being idle when the transfer began, as Finalize leaves it — and the module must be idle again    *)
+(* if the session goes on.  At the end of the session the files at the destination are exactly those of    *)
+(* the transfers that placed one.  A run whose MTU is below what the fixed announcements of the module     *)
+(* need (`floor`) may fail or succeed; only the safety invariants are judged for it.                       *)
 EXTENDS Fsim, Json
 
 VARIABLES l, skip
@@ -23,17 +28,39 @@ Step(chk, act) ==
          /\ skip' = TRUE
          /\ UNCHANGED vars
 
+(* a transfer whose outcome is not the specification's is reported; the session is judged further: what the  *)
+(* transfer left behind is what the next one starts from                                                   *)
+StepOn(chk, act) ==
+    /\ IF AllOK(chk) THEN TRUE ELSE PrintT(<<"TRACE_DIAG", l, Ev.run, FirstFail(chk)>>)
+    /\ act /\ skip' = FALSE
+
+NoScenario(m, floor) == [mod |-> m, len |-> 0, chunk |-> 0, cor |-> "none", k |-> 0, d |-> 0, srv |-> "na", floor |-> floor]
+
+(* a session begins: a fresh module instance, nothing at the destination *)
 TStart ==
-    /\ sc' = [mod |-> Ev.mod, len |-> Ev.len, chunk |-> Ev.chunk, cor |-> Ev.cor, k |-> 0, d |-> 0, floor |-> Ev.floor]
-    /\ stage' = "init" /\ annLen' = -1 /\ annDig' = "none"
+    /\ sess' = [mod |-> Ev.mod, must |-> Ev.must]
+    /\ xi' = 0 /\ sstage' = "run" /\ placed' = {} /\ mTemp' = FALSE /\ mCarry' = 0
+    /\ sc' = NoScenario(Ev.mod, Ev.floor)
+    /\ stage' = "end" /\ annLen' = -1 /\ annDig' = "none" /\ httpLen' = -2
     /\ sent' = 0 /\ nchunk' = 0 /\ rcvLen' = 0 /\ taint' = FALSE
-    /\ dest' = "absent" /\ result' = "none"
+    /\ dest' = "absent" /\ result' = "none" /\ stalled' = FALSE
     /\ skip' = FALSE
 
-(* The outcome the specification allows in the state reached, against what the run left behind.          *)
+(* the next transfer of the session begins (NextXfer): the module is as Finalize left it *)
+TXfer ==
+    /\ xi' = Ev.i
+    /\ sc' = [mod |-> sess.mod, len |-> Ev.len, chunk |-> Ev.chunk, cor |-> Ev.cor, k |-> 0, d |-> 0, srv |-> Ev.srv, floor |-> sc.floor]
+    /\ stage' = "init" /\ annLen' = -1 /\ annDig' = "none" /\ httpLen' = -2
+    /\ sent' = 0 /\ nchunk' = 0 /\ rcvLen' = 0 /\ taint' = FALSE
+    /\ dest' = "absent" /\ result' = "none" /\ stalled' = FALSE
+    /\ mCarry' = 0 /\ mTemp' = mTemp
+    /\ UNCHANGED <<sess, sstage, placed>>
+
+(* The outcome the specification allows in the state reached, against what the transfer left behind.     *)
 Failed(e)  == e.reported \/ e.to2_err
-ChkEnd(e) ==
-    IF sc.floor
+GoesOn(e)  == ~Failed(e) \/ (sess.mod = "download" /\ ~sess.must /\ ~e.stalled /\ ~e.to2_err)     \* Continues, on what was observed
+ChkOutcome(e) ==
+    IF sc.floor \/ (Matches /\ Short)
     THEN << <<"wrong_or_partial_file_at_destination", e.dest \in {"absent", "same"}>>,
             <<"success_without_identical_file", (e.dest = "same") \/ Failed(e)>> >>
     ELSE IF Matches
@@ -42,27 +69,52 @@ ChkEnd(e) ==
             <<"verified_transfer_reported_failure", ~Failed(e)>> >>
     ELSE << <<"file_at_destination_despite_mismatch", e.dest = "absent">>,
             <<"mismatch_not_reported", Failed(e)>>,
-            <<"honest_transfer_failed", sc.cor # "none">> >>
+            <<"honest_transfer_failed", sc.cor # "none" /\ ~Masked>> >>
+(* A temporary file left behind by a finalized transfer is recorded (e.tmp_left, counted in the evidence) *)
+(* but not judged: the property speaks about the destination only.                                       *)
+ChkEnd(e) == ChkOutcome(e)
 
 TEnd(e) ==
     /\ stage' = "end"
     /\ dest' = e.dest
     /\ result' = IF Failed(e) THEN "failure" ELSE "success"
-    /\ UNCHANGED <<sc, annLen, annDig, sent, nchunk, rcvLen, taint>>
+    /\ stalled' = e.stalled
+    /\ placed' = IF e.dest = "same" THEN placed \cup {xi} ELSE placed
+    /\ mTemp' = (e.tmp_left > 0) /\ mCarry' = 0
+    /\ UNCHANGED <<sess, xi, sstage, sc, annLen, annDig, httpLen, sent, nchunk, rcvLen, taint>>
 
+(* the session is over: the destination holds the files of the transfers that placed one, intact, and nothing else *)
+SeqSet(s) == {s[j] : j \in DOMAIN s}
+ChkSession(e) ==
+    << <<"unexpected_file_at_destination", Len(e.stray) = 0>>,
+       <<"file_of_earlier_transfer_damaged", Len(e.damaged) = 0>>,
+       <<"file_of_earlier_transfer_lost_or_resurrected", SeqSet(e.intact) = placed>> >>
+
+TOver ==
+    /\ sstage' = "over"
+    /\ UNCHANGED <<sess, xi, placed, mTemp, mCarry, xvars>>
+
+Mine == Ev.i = xi
 Dispatch ==
-    CASE Ev.ev = "announce_len" -> Step(<< <<"length_announced_twice", annLen = -1>> >>, AnnounceLen(Ev.len) /\ UNCHANGED sent)
-      [] Ev.ev = "announce_dig" -> Step(<< <<"digest_announced_twice", annDig = "none">> >>, AnnounceDig(Ev.digok) /\ UNCHANGED sent)
-      [] Ev.ev = "data"         -> Step(<< <<"data_after_end", stage # "end">> >>, Data(Ev.n, Ev.same) /\ UNCHANGED sent)
-      [] Ev.ev = "end"          -> Step(ChkEnd(Ev), TEnd(Ev))
+    CASE Ev.ev = "xfer"         -> Step(<< <<"transfer_out_of_order", Ev.i = xi + 1 /\ stage = "end" /\ sstage = "run">> >>, TXfer)
+      [] Ev.ev = "announce_len" -> Step(<< <<"event_of_another_transfer", Mine>>, <<"length_announced_twice", annLen = -1>> >>, AnnounceLen(Ev.len) /\ UNCHANGED sent)
+      [] Ev.ev = "announce_dig" -> Step(<< <<"event_of_another_transfer", Mine>>, <<"digest_announced_twice", annDig = "none">> >>, AnnounceDig(Ev.digok) /\ UNCHANGED sent)
+      [] Ev.ev = "http_len"     -> Step(<< <<"event_of_another_transfer", Mine>>, <<"response_header_twice", httpLen = -2>> >>, AnnounceHttp(Ev.len) /\ UNCHANGED sent)
+      [] Ev.ev = "data"         -> Step(<< <<"event_of_another_transfer", Mine>>, <<"data_after_end", stage # "end">> >>, Data(Ev.n, Ev.same) /\ UNCHANGED sent)
+      [] Ev.ev = "xend"         -> IF Mine /\ stage # "end"
+                                   THEN StepOn(ChkEnd(Ev), TEnd(Ev))
+                                   ELSE Step(<< <<"event_of_another_transfer", Mine>>, <<"transfer_ended_twice", stage # "end">> >>, UNCHANGED vars)
+      [] Ev.ev = "end"          -> Step(ChkSession(Ev), TOver)
       [] Ev.ev = "crash"        -> Step(<< <<"crash", FALSE>> >>, UNCHANGED vars)
       [] OTHER                  -> UNCHANGED <<vars, skip>>
 
 TraceInit ==
-    /\ sc = [mod |-> "none", len |-> 0, chunk |-> 0, cor |-> "none", k |-> 0, d |-> 0, floor |-> FALSE]
-    /\ stage = "init" /\ annLen = -1 /\ annDig = "none"
+    /\ sess = [mod |-> "none", must |-> FALSE]
+    /\ xi = 0 /\ sstage = "over" /\ placed = {} /\ mTemp = FALSE /\ mCarry = 0
+    /\ sc = NoScenario("none", FALSE)
+    /\ stage = "end" /\ annLen = -1 /\ annDig = "none" /\ httpLen = -2
     /\ sent = 0 /\ nchunk = 0 /\ rcvLen = 0 /\ taint = FALSE
-    /\ dest = "absent" /\ result = "none"
+    /\ dest = "absent" /\ result = "none" /\ stalled = FALSE
     /\ l = 1 /\ skip = TRUE
 
 TraceNext ==
@@ -74,8 +126,11 @@ TraceNext ==
 
 TraceSpec == TraceInit /\ [][TraceNext]_<<vars, l, skip>>
 
-(* In a recorded run the invariants that speak about the outcome are those of the property itself.        *)
-TraceSafety == (stage = "end") => (dest \in {"absent", "same"} /\ (result = "success" /\ ~sc.floor => dest = "same"))
+(* In a recorded run the invariants that speak about the outcome are those of the property itself; every   *)
+(* violation of TraceSafety is reported by ChkOutcome first (the state then records what was observed, so   *)
+(* that the rest of the session is judged), which is why Fsim_Trace.cfg does not list it.                   *)
+TraceSafety == (stage = "end" /\ xi > 0) => (dest \in {"absent", "same"} /\ (result = "success" /\ ~sc.floor => dest = "same"))
+TraceIdle   == (stage = "init") => mCarry = 0
 
 TraceAccepted ==
     LET d == TLCGet("stats").diameter - 1 IN
